@@ -37,6 +37,10 @@ type c20Probe struct {
 type c20Scenario struct {
 	ID     int        `json:"id"`
 	Probes []c20Probe `json:"probes"`
+	// a scan that takes its time: after the first FastFirst probes every further probe waits PaceMs
+	// (gaps stay far below the quiet period: it is still one burst)
+	FastFirst int `json:"fast_first,omitempty"`
+	PaceMs    int `json:"pace_ms,omitempty"`
 }
 
 type c20Report struct {
@@ -144,7 +148,9 @@ func c20Knock(in, out string) error {
 			defer wg.Done()
 			for n, p := range sc.Probes {
 				c.VerifInject(c20Frame(p, n))
-				if n%16 == 15 {
+				if sc.PaceMs > 0 && n >= sc.FastFirst {
+					time.Sleep(time.Duration(sc.PaceMs) * time.Millisecond)
+				} else if n%16 == 15 {
 					time.Sleep(time.Millisecond)
 				}
 			}
